@@ -178,45 +178,73 @@ def run_harness(binary, replay=None, seed=1, nk=100, nt=100):
 # are encoded in the value lists themselves (power-of-two lengths for
 # bitonicsort / fastwalshtransform, AES block multiples, fft >= 8 KiB, a graph /
 # matrix with at least one edge / non-zero).
+# params: (flag, values, large values).  "large" values are drawn in emulation only
+# (a timing run of them would take minutes); None = the flag is omitted.
+# The flag set of every table is checked against `<sample> -h` on every run
+# (flag_coverage): a numeric flag of a sample that no table varies fails the check.
 P = collections.OrderedDict()
-P['fir'] = dict(params=[('length', [1, 63, 64, 65, 100, 199, 255, 256, 257, 1000, 4096]), ('taps', [1, 16, 33])],
+_XY = [1, 17, 33, 64, 100, 200, 256, 257, 300]
+P['fir'] = dict(params=[('length', [1, 63, 64, 65, 100, 199, 255, 256, 257, 1000, 4096], [8192, 100000]),
+                        ('taps', [1, 2, 16, 33, 64, 128, 300], [])],
                 cdna3=True, multi=True, unified=True, um=True, timing=True)
-P['aes'] = dict(params=[('length', [16, 64, 1024, 4096])], cdna3=True, multi=True, unified=True, um=True, timing=True)
-P['atax'] = dict(params=[('x', [1, 17, 33, 64, 100, 200, 256, 257, 300]), ('y', [1, 17, 33, 64, 100, 200, 256, 257, 300])],
-                 cdna3=True, multi=True, unified=True, um=True, timing=True)
-P['bicg'] = dict(params=[('x', [1, 17, 33, 64, 100, 200, 256, 257, 300]), ('y', [1, 17, 33, 64, 100, 200, 256, 257, 300])],
-                 cdna3=True, multi=True, unified=True, um=True, timing=True)
-P['bfs'] = dict(params=[('node', [2, 63, 100, 257, 1000]), ('degree', [1, 3, 5]), ('depth', [0, 2])],
-                cdna3=True, multi=False, unified=True, um=True, timing=True)
-P['bitonicsort'] = dict(params=[('length', [2, 64, 256, 512]), ('order-asc', ['true', 'false'])],
+P['aes'] = dict(params=[('length', [16, 64, 1024, 4096], [65536])], cdna3=True, multi=True, unified=True, um=True, timing=True)
+P['atax'] = dict(params=[('x', _XY, [1024]), ('y', _XY, [1024])], cdna3=True, multi=True, unified=True, um=True, timing=True)
+P['bicg'] = dict(params=[('x', _XY, [1024]), ('y', _XY, [1024])], cdna3=True, multi=True, unified=True, um=True, timing=True)
+P['bfs'] = dict(params=[('node', [2, 63, 100, 257, 1000, 1024], [2048, 4096]), ('degree', [1, 3, 5, 8], []), ('depth', [0, 1, 2, 5], [])],
+                cdna3=True, multi=False, unified=True, um=True, timing=True, ignored_flags=['load-graph'])
+P['bitonicsort'] = dict(params=[('length', [2, 64, 256, 512], [4096]), ('order-asc', ['true', 'false'], [])],
                         cdna3=True, multi=True, unified=True, um=True, timing=False)
-P['fastwalshtransform'] = dict(params=[('length', [2, 64, 256, 512, 2048])], cdna3=True, multi=True, unified=True, um=True, timing=False)
-P['fft'] = dict(params=[('bytes', [8192, 65536, 131072]), ('passes', [1, 2])], cdna3=True, multi=True, unified=True, um=True, timing=True)
-P['floydwarshall'] = dict(params=[('node', [8, 16, 17, 24, 32, 48]), ('iter', [0, 1, 3])], cdna3=True, multi=True, unified=True, um=True, timing=True)
-P['kmeans'] = dict(params=[('points', [1, 65, 100, 256, 1000]), ('features', [1, 3, 8, 34]), ('clusters', [1, 2, 5, 7]), ('max-iter', [1, 2, 3])],
-                   cdna3=True, multi=True, unified=True, um=True, timing=True)
-P['matrixmultiplication'] = dict(params=[('x', [16, 32, 48, 64, 96]), ('y', [16, 32, 48, 64]), ('z', [16, 32, 48, 64])],
+P['fastwalshtransform'] = dict(params=[('length', [2, 64, 256, 512, 2048], [8192, 65536])], cdna3=True, multi=True, unified=True, um=True, timing=False)
+P['fft'] = dict(params=[('bytes', [8192, 65536, 131072, None], [1048576]), ('MB', [None, None, 1], []), ('passes', [1, 2, 3], [])],
+                cdna3=True, multi=True, unified=True, um=True, timing=True)
+P['floydwarshall'] = dict(params=[('node', [8, 16, 17, 24, 32, 48], [64, 128]), ('iter', [0, 1, 3, 5], [])],
+                          cdna3=True, multi=True, unified=True, um=True, timing=True)
+P['kmeans'] = dict(params=[('points', [1, 65, 100, 256, 1000], [4096]), ('features', [1, 3, 8, 34, 64], []), ('clusters', [1, 2, 5, 7, 16], []),
+                           ('max-iter', [1, 2, 3, 5, 10], [])], cdna3=True, multi=True, unified=True, um=True, timing=True)
+P['matrixmultiplication'] = dict(params=[('x', [16, 32, 48, 64, 96], [128, 256]), ('y', [16, 32, 48, 64], [128, 200]), ('z', [16, 32, 48, 64], [128, 256])],
                                  cdna3=True, multi=True, unified=True, um=True, timing=True)
-P['matrixtranspose'] = dict(params=[('width', [64, 100, 128, 192, 256])], cdna3=True, multi=True, unified=True, um=True, timing=True)
-P['nbody'] = dict(params=[('particles', [1, 64, 100, 128, 256]), ('iter', [1, 2, 3])], cdna3=True, multi=True, unified=True, um=True, timing=True)
-P['nw'] = dict(params=[('length', [64, 128, 192])], cdna3=True, multi=False, unified=False, um=False, timing=False)
-P['pagerank'] = dict(params=[('node', [1, 16, 32, 65, 100]), ('sparsity', [1, 0.5, 0.1, 0.05]), ('iterations', [1, 2, 3])],
-                     cdna3=True, multi=True, unified=True, um=True, timing=True)
-P['relu'] = dict(params=[('length', [1, 63, 64, 65, 1000, 4097])], cdna3=True, multi=True, unified=True, um=True, timing=True)
-P['simpleconvolution'] = dict(params=[('width', [1, 16, 17, 30, 64, 100]), ('height', [1, 16, 17, 30, 64, 100]), ('mask-size', [3, 5, 7])],
-                              cdna3=True, multi=True, unified=True, um=True, timing=True)
-P['spmv'] = dict(params=[('dim', [8, 63, 64, 100, 128, 129, 256]), ('sparsity', [1, 0.1, 0.05, 0.02])],
+P['matrixtranspose'] = dict(params=[('width', [64, 100, 128, 192, 256], [512, 1024])], cdna3=True, multi=True, unified=True, um=True, timing=True)
+P['nbody'] = dict(params=[('particles', [1, 64, 100, 128, 256], [512, 1024]), ('iter', [1, 2, 3, 8], [])],
+                  cdna3=True, multi=True, unified=True, um=True, timing=True)
+P['nw'] = dict(params=[('length', [64, 128, 192], [])], cdna3=True, multi=False, unified=False, um=False, timing=False)
+P['pagerank'] = dict(params=[('node', [1, 16, 32, 65, 100, 256], [1024, 2048]), ('sparsity', [1, 0.5, 0.1, 0.05, 0.01], []),
+                             ('iterations', [1, 2, 3, 5, 16], [])], cdna3=True, multi=True, unified=True, um=True, timing=True)
+P['relu'] = dict(params=[('length', [1, 63, 64, 65, 1000, 4097], [100000])], cdna3=True, multi=True, unified=True, um=True, timing=True)
+P['simpleconvolution'] = dict(params=[('width', [1, 16, 17, 30, 64, 100], [254, 512]), ('height', [1, 16, 17, 30, 64, 100], [254, 300]),
+                                      ('mask-size', [1, 3, 5, 7, 9], [])], cdna3=True, multi=True, unified=True, um=True, timing=True)
+P['spmv'] = dict(params=[('dim', [8, 63, 64, 100, 128, 129, 256], [1024, 2048]), ('sparsity', [1, 0.1, 0.05, 0.02, 0.005], [])],
                  cdna3=True, multi=True, unified=True, um=False, timing=True)
-P['stencil2d'] = dict(params=[('row', [34, 64, 66]), ('col', [64, 66, 127, 128, 192]), ('iter', [1, 3])],
+P['stencil2d'] = dict(params=[('row', [34, 64, 66], []), ('col', [64, 66, 127, 128, 192], [256, 384]), ('iter', [1, 3, 5], [])],
                       cdna3=True, multi=True, unified=True, um=True, timing=True)
-P['vectoradd'] = dict(params=[('width', [1, 63, 65, 100, 1000, 4096]), ('height', [1, 2, 3])], cdna3=True, multi=True, unified=True, um=False, timing=False)
-P['conv2d'] = dict(params=[('N', [1, 2]), ('C', [1, 3]), ('H', [8, 9, 28]), ('W', [8, 11, 28]), ('output-channel', [1, 2, 3]),
-                           ('kernel-height', [1, 3]), ('kernel-width', [1, 3]), ('pad-x', [0, 1]), ('pad-y', [0, 1]),
-                           ('stride-x', [1, 2]), ('stride-y', [1, 2])], cdna3=False, multi=False, unified=False, um=False, timing=False)
-P['im2col'] = dict(params=[('N', [1, 2]), ('C', [1, 3]), ('H', [8, 9, 28]), ('W', [8, 11, 28]), ('kernel-height', [1, 3]),
-                           ('kernel-width', [1, 3]), ('pad-x', [0, 1]), ('pad-y', [0, 1]), ('stride-x', [1, 2]), ('stride-y', [1, 2]),
-                           ('dilate-x', [1, 2]), ('dilate-y', [1, 2])], cdna3=False, multi=False, unified=False, um=False, timing=False)
+P['vectoradd'] = dict(params=[('width', [1, 63, 65, 100, 1000, 4096], [65536]), ('height', [1, 2, 3], [64])],
+                      cdna3=True, multi=True, unified=True, um=False, timing=False)
+P['conv2d'] = dict(params=[('N', [1, 2, 4], []), ('C', [1, 3, 8], []), ('H', [5, 8, 9, 28], [32]), ('W', [5, 8, 11, 28], [32]), ('output-channel', [1, 2, 3, 8], []),
+                           ('kernel-height', [1, 3, 5], []), ('kernel-width', [1, 3, 5], []), ('pad-x', [0, 1, 2], []), ('pad-y', [0, 1, 2], []),
+                           ('stride-x', [1, 2, 3], []), ('stride-y', [1, 2, 3], []), ('enable-backward', [None, None, 'true'], [])],
+                   cdna3=False, multi=False, unified=False, um=False, timing=False)
+P['im2col'] = dict(params=[('N', [1, 2, 4], []), ('C', [1, 3, 8], []), ('H', [5, 8, 9, 28], [32]), ('W', [5, 8, 11, 28], [32]), ('kernel-height', [1, 3, 5], []),
+                           ('kernel-width', [1, 3, 5], []), ('pad-x', [0, 1, 2], []), ('pad-y', [0, 1, 2], []), ('stride-x', [1, 2, 3], []), ('stride-y', [1, 2, 3], []),
+                           ('dilate-x', [1, 2, 3], []), ('dilate-y', [1, 2, 3], [])], cdna3=False, multi=False, unified=False, um=False, timing=False)
 P['memcopy'] = dict(params=[], cdna3=False, multi=False, unified=False, um=False, timing=False)
+
+# flags every sample inherits (runner + sampling package): execution classes are
+# chosen by the matrix; wavefront-level sampled simulation is an approximation mode
+# outside the property
+NON_SIZE_FLAGS = {'sampled-granulary', 'sampled-threshold', 'wf-sampling'}
+
+
+def flag_coverage(bindir):
+    """own flags of every sample (from `<sample> -h`) that no parameter table varies"""
+    import re
+    runner = set(re.findall(r'flag\.\w+\("([\w-]+)"', open(os.path.join(vlib.REPO, 'amd/samples/runner/flag.go')).read()))
+    missing = []
+    for w, d in P.items():
+        rc, out = vlib.run([os.path.join(bindir, w), '-h'], timeout=30)
+        own = set(re.findall(r'^\s+-([\w-]+)', out, re.M)) - runner - NON_SIZE_FLAGS - set(d.get('ignored_flags', []))
+        missing += ['%s -%s' % (w, f) for f in sorted(own - {k for k, _, _ in d['params']})]
+        extra = {k for k, _, _ in d['params']} - own
+        missing += ['%s -%s (table entry without such a flag)' % (w, f) for f in sorted(extra)]
+    return missing
 
 
 def vals(c):
@@ -337,11 +365,10 @@ def known_class(c):
 
 
 def draw(rng):
-    """one configuration: workload uniform, every size parameter drawn independently
-    from its own list, then an execution class the workload supports"""
+    """one configuration: workload uniform, an execution class the workload supports, then every
+    size parameter drawn independently from its own list (large values in emulation only)"""
     w = rng.choice(list(P))
     d = P[w]
-    size = ' '.join('-%s=%s' % (k, rng.choice(vs)) for k, vs in d['params'])
     classes = [dict()]
     if d['cdna3']:
         classes += [dict(arch='cdna3')] * 2
@@ -374,7 +401,13 @@ def draw(rng):
             classes += [dict(timing=True, gpus='1,2', unified=True), dict(timing=True, gpus='1,2,3,4', unified=True)]
     if w == 'vectoradd':  # mi300a timing: the one class the acceptance matrix lists
         classes += [dict(arch='cdna3', timing=True, gpu='mi300a'), dict(arch='cdna3', timing=True, gpu='mi300a', gpus='1,2', unified=True)]
-    return mk(w, size, **rng.choice(classes))
+    cls = rng.choice(classes)
+    toks = []
+    for k, vs, large in d['params']:
+        v = rng.choice(vs + ([] if cls.get('timing') else large))
+        if v is not None:
+            toks.append('-%s=%s' % (k, v))
+    return mk(w, ' '.join(toks), **cls)
 
 
 def draw_matrix(rng, n, seen):
